@@ -14,8 +14,11 @@
   Data layout: the lexer's `source: Vec<SourceCharEx>` is the pair (`pre` = consumed characters, most
   recent first; `rest` = characters from `index` on).  Every character carries its origin chain: the names
   of the aliases whose replacement produced it, innermost first (`Source::Alias{original, alias}` nesting).
-  Import-free, total, executable.
+  Imports only other areas' import-free models (C20 `Args.parseArguments` for the option parsing of the built-ins, C07
+  `Quote.quote` for the printed form of an alias); total, executable.
 -/
+import YashModel.Args.Model
+import YashModel.Quote.Model
 namespace YashModel.Alias
 
 /-- `yash_env::alias::Alias` (name, replacement, global). -/
@@ -744,29 +747,79 @@ def defineAlias (T : Table) (arg : List Char) : Table :=
     { name := n, value := arg.drop (name.length + 1), global := false } :: T.filter (fun a => a.name != n)
 
 /-- leading option of a built-in's argument list (`parse_arguments`: options end at the first operand):
-    `none` = no option, operands as given; `some (opt, rest)`. -/
+    `none` = no option, operands as given; `some (opt, rest)`.  (Kept for the lemmas of the earlier rounds; the
+    built-ins below use C20's model of `parse_arguments`.) -/
 def leadingOption (args : List (List Char)) : Option (List Char × List (List Char)) :=
   match args with
   | a :: rest => if a.head? == some '-' && a.length > 1 then some (a, rest) else none
   | [] => none
 
-/-- the effect of one `alias …` / `unalias …` command on the table (`alias` has no options; `unalias -a`) -/
-def applyCmd (T : Table) (ws : List (List Char)) : Table :=
+/-- what one `alias` / `unalias` command does: the table afterwards, the exit status (`ExitStatus::SUCCESS` 0,
+    `FAILURE` 1, `ERROR` 2), what it writes to standard output -/
+structure CmdResult where
+  T : Table
+  status : Nat := 0
+  out : List Char := []
+  deriving Repr
+
+/-- `print` (alias/semantics.rs): `quoted(name)=quoted(replacement)` and a newline; `yash_quote::quoted` is C07's
+    `Quote.quote` -/
+def printAliasLine (a : Alias) : List Char :=
+  Quote.quote a.name.toList ++ '=' :: (Quote.quote a.value ++ ['\n'])
+
+def insertByName (a : Alias) : List Alias → List Alias
+  | [] => [a]
+  | b :: t => if a.name < b.name then a :: b :: t else b :: insertByName a t
+
+/-- the definitions in force (first entry of a name), sorted by name (`sort_unstable_by_key(name)`) -/
+def Table.sortedUnique (T : Table) : List Alias :=
+  (T.foldl (fun (acc : List Alias) a => if acc.any (·.name == a.name) then acc else acc ++ [a]) []).foldr insertByName []
+
+/-- one operand of `alias` (`Command::execute`): `name=value` defines; an operand without `=` prints the
+    definition of that name, or is an error (`NonExistentAlias`: the other operands are still processed) -/
+def aliasOperand (r : CmdResult) (arg : List Char) : CmdResult :=
+  if (arg.takeWhile (· != '=')).length == arg.length then
+    match r.T.lookup (String.ofList arg) with
+    | some a => { r with out := r.out ++ printAliasLine a }
+    | none => { r with status := 1 }
+  else { r with T := defineAlias r.T arg }
+
+/-- `alias::main`: `parse_arguments(&[], Mode::with_env(env), args)` (no option at all: every `-x` / `--x` before the
+    first operand is an error, exit status 2, nothing defined), no operand = print every definition -/
+def runAlias (T : Table) (args : List (List Char)) : CmdResult :=
+  match Args.parseArguments [] Args.Mode.withExtensions args with
+  | .error _ => { T := T, status := 2 }
+  | .ok (_, operands) =>
+    if operands.isEmpty then { T := T, out := (T.sortedUnique.map printAliasLine).flatten }
+    else operands.foldl aliasOperand { T := T }
+
+/-- one operand of `unalias` (`Command::Remove`): remove the definition, an undefined name is an error -/
+def unaliasOperand (r : CmdResult) (arg : List Char) : CmdResult :=
+  if (r.T.lookup (String.ofList arg)).isSome then { r with T := r.T.filter (fun a => a.name.toList != arg) }
+  else { r with status := 1 }
+
+/-- `unalias::main` / `syntax::parse`: option `-a` (any number of times, also grouped), `-a` with operands and no
+    argument at all are errors (exit status 2, nothing removed) -/
+def runUnalias (T : Table) (args : List (List Char)) : CmdResult :=
+  match Args.parseArguments [{ short := some 'a' }] Args.Mode.withExtensions args with
+  | .error _ => { T := T, status := 2 }
+  | .ok (opts, operands) =>
+    if opts.isEmpty then
+      (if operands.isEmpty then { T := T, status := 2 } else operands.foldl unaliasOperand { T := T })
+    else if operands.isEmpty then { T := [] }
+    else { T := T, status := 2 }
+
+/-- one `alias …` / `unalias …` command (words as written: quote removal first) -/
+def runCmd (T : Table) (ws : List (List Char)) : CmdResult :=
   match ws.map (unquote .un) with
   | cmd :: args =>
-    if cmd == "alias".toList then
-      match leadingOption args with
-      | none => args.foldl defineAlias T
-      | some (o, rest) => if o == "--".toList then rest.foldl defineAlias T else T
-    else if cmd == "unalias".toList then
-      match leadingOption args with
-      | none => T.filter (fun a => !args.contains a.name.toList)
-      | some (o, rest) =>
-        if o == "--".toList then T.filter (fun a => !rest.contains a.name.toList)
-        else if o == "-a".toList && rest.isEmpty then []
-        else T
-    else T
-  | [] => T
+    if cmd == "alias".toList then runAlias T args
+    else if cmd == "unalias".toList then runUnalias T args
+    else { T := T }
+  | [] => { T := T }
+
+/-- the effect of one `alias …` / `unalias …` command on the table -/
+def applyCmd (T : Table) (ws : List (List Char)) : Table := (runCmd T ws).T
 
 def isOpener (w : String) : Bool :=
   w == "{" || w == "if" || w == "while" || w == "until" || w == "for" || w == "case"
